@@ -109,6 +109,25 @@ def _shuffle_lammpstrj_rows(fn, seed):
     open(fn, "w").write("\n".join(out) + "\n")
 
 
+def _lammpstrj_extra_column(fn):
+    """rewrite a LAMMPS dump with a molecule-id column between id and type (`dump custom id mol type x y z`): the columns are
+    named in every frame's ITEM: ATOMS line, so the content is the same"""
+    out, in_atoms = [], False
+    for line in open(fn).read().splitlines():
+        if line.startswith("ITEM:"):
+            in_atoms = line.startswith("ITEM: ATOMS")
+            if in_atoms:
+                cols = line.split()[2:]
+                line = "ITEM: ATOMS " + " ".join([cols[0], "mol"] + cols[1:])
+            out.append(line)
+        elif in_atoms and line.strip():
+            w = line.split()
+            out.append(" ".join([w[0], "1"] + w[1:]))
+        else:
+            out.append(line)
+    open(fn, "w").write("\n".join(out) + "\n")
+
+
 # files written by other programs, as shipped with mdtraj's own tests (copied to seeds/stored): 22 atoms, 501 frames (mdcrd: 1002)
 STORED = {"xtc": 501, "trr": 501, "dcd": 501, "nc": 501, "h5": 501, "gro": 501, "lammpstrj": 501, "mdcrd": 1002, "xyz": 501,
           "xyz.gz": 501, "pdb.gz": 501}
@@ -177,11 +196,14 @@ def _file(fmt, nf, na, cell, seed, idx=0, rows=None, stored=False, trr_vf=None, 
     if trr_vf:
         plain_full = files.load(fn, fmt, tr.topology)
         _rewrite_trr_with_vf(fn, tr, trr_vf, seed + idx)
-    if rows == "shuffled":
+    if rows in ("shuffled", "molcol"):
         sorted_full = files.load(fn, fmt, tr.topology)
-        _shuffle_lammpstrj_rows(fn, seed + idx)
+        if rows == "shuffled":
+            _shuffle_lammpstrj_rows(fn, seed + idx)
+        else:
+            _lammpstrj_extra_column(fn)
     full = files.load(fn, fmt, tr.topology)
-    if rows == "shuffled":
+    if rows in ("shuffled", "molcol"):
         full._row_order_diff = files.traj_diff(full, sorted_full)
     if trr_vf:
         full._vf_diff = files.traj_diff(full, plain_full)
@@ -213,7 +235,7 @@ def strategy(draw, tier="quick"):
     op = draw(st.sampled_from(["stride", "stride", "frame", "iterload", "iterload", "iterload", "list"]))
     case = {"fmt": fmt, "nf": nf, "na": na, "cell": cell, "seed": draw(st.integers(0, 3)), "op": op}
     if fmt == "lammpstrj" and na >= 2 and draw(st.booleans()):
-        case["rows"] = "shuffled"       # a dump as LAMMPS writes it without `dump_modify sort id`
+        case["rows"] = draw(st.sampled_from(["shuffled", "molcol"]))       # a dump as LAMMPS writes it without `dump_modify sort id` / with a molecule-id column
     if fmt in ("pdb", "pdb.gz") and na >= 3 and draw(st.integers(0, 4)) == 0:
         case["cell"] = "tiny"          # density of the whole file 1000 / nm^3 < n / V: the CRYST1 record counts as a dummy
     if fmt == "dcd" and na >= 2 and cell != "tric" and cell != "vary" and draw(st.integers(0, 2)) == 0:
